@@ -32,8 +32,13 @@ class Field:
 
     def __init__(self, data, pixelscale=None, offset=None, tilt=None):
         #: ndarray : Complex field data
-        self.data = np.asarray(data, dtype=complex) 
-        
+        self.data = np.asarray(data, dtype=complex)
+        if self.data.ndim == 1 and self.data.size == 1:
+            # a constant that arrives in a length-1 vector ([0.0], the phasor
+            # of a plane built from such attributes) is the constant it holds
+            # (a (1, 1) array is one sample of a plane)
+            self.data = self.data.reshape(())
+
         self.pixelscale = pixelscale
         """Spatial sampling of data
         
